@@ -135,6 +135,10 @@ impl Claims {
             && final(storage).view() == old(storage).view().insert(claims_key(self.ns@, addr@),
                 ser_claims(waiting(claims_of(old(storage).view(), self.ns@, addr@), block))),
     { unimplemented!() }
+    #[verifier::external_body]
+    pub fn query_claims(&self, deps: Deps, address: &Addr) -> (r: StdResult<ClaimsResponse>)
+        ensures r is Ok ==> r->Ok_0.claims@ == claims_of(deps.storage.view(), self.ns@, address@)
+    { unimplemented!() }
 }
 
 } // verus!
